@@ -66,6 +66,9 @@ func (ex *Exec) call(fr *Frame, st *State, c *ssa.CallCommon, site ssa.Instructi
 	} else if fn := funcFieldName(c.Value); fn != "" {
 		name = fn
 	}
+	if name != "" && ex.discover == nil {
+		ex.forbidCheck(fr, st, name, site)
+	}
 	var clauses []*CallClause
 	if name != "" && ex.discover == nil {
 		clauses = ex.callSiteClauses(fr, name, ex.prog.callOrdinal(site, name))
@@ -530,7 +533,7 @@ func (ex *Exec) havocThroughArg(st *State, a *Value, ws *writeSet) {
 	case *types.Pointer:
 		pointee = u.Elem()
 	case *types.Slice:
-		pointee = a.T
+		pointee = sliceRootType(a.T)
 	default:
 		return
 	}
@@ -575,15 +578,20 @@ func (ex *Exec) applyModifies(env *Env, st *State, m ModTarget) {
 			ex.discover.all = true
 		}
 		ex.havocAllHeap(st)
-	case "foreign", "data":
-		cls := clsForeign
-		if m.Kind == "data" {
-			cls = clsData
+	case "foreign", "data", "maps":
+		classes := []int{clsForeign}
+		switch m.Kind {
+		case "data":
+			classes = []int{clsData, clsMap}
+		case "maps":
+			classes = []int{clsMap}
 		}
-		if ex.discover != nil {
-			ex.discover.classes[cls] = true
+		for _, cls := range classes {
+			if ex.discover != nil {
+				ex.discover.classes[cls] = true
+			}
+			ex.havocClass(st, cls)
 		}
-		ex.havocClass(st, cls)
 	case "type":
 		t := ex.prog.lookupType(m.Name, env.pkg)
 		if t == nil {
@@ -655,11 +663,11 @@ func (ex *Exec) havocSliceContents(st *State, v *Value, u *types.Slice) {
 		}
 		return
 	}
-	key := typeKey(v.T)
+	key := typeKey(sliceRootType(v.T))
 	for i, c := range ex.L.Backing(u.Elem()) {
 		h := ex.heapMap(st, key, i, c.Sort)
 		if ex.discover != nil {
-			ex.discover.heap[fmt.Sprintf("%s|%d", key, i)] = heapKeyInfo{rootKey: key, root: v.T, comp: i, sort: c.Sort}
+			ex.discover.heap[fmt.Sprintf("%s|%d", key, i)] = heapKeyInfo{rootKey: key, root: sliceRootType(v.T), comp: i, sort: c.Sort}
 		}
 		ex.setHeapMap(st, key, i, ex.tb.Store(h, v.C[0], ex.tb.Fresh("modbk", c.Sort)))
 	}
@@ -866,7 +874,7 @@ func (ex *Exec) loadGlobal(st *State, g *ssa.Global) *Value {
 		if arr, ok := ex.constSliceArr["CG$"+g.String()]; ok {
 			// immutable table behind a slice: its backing contents are known
 			rt := sliceRootType(v.T)
-			c := ex.L.Backing(rt.(*types.Slice).Elem())[0]
+			c := ex.L.Backing(backingElem(rt))[0]
 			ex.assume(st, ex.tb.Eq(ex.tb.Select(ex.heapMap(st, typeKey(rt), 0, c.Sort), v.C[0]), arr))
 		}
 		return v
@@ -910,6 +918,7 @@ func (ex *Exec) builtin(fr *Frame, st *State, name string, args []*Value, retT t
 			return hv
 		}
 	case "append":
+		ex.atObligations(fr, st, "append", site, map[string]*Value{"$0": args[0], "$1": args[1]})
 		return ex.builtinAppend(st, args[0], args[1], retT, site)
 	case "copy":
 		return ex.builtinCopy(st, args[0], args[1], site)
@@ -971,7 +980,15 @@ func (ex *Exec) sliceElemPtr(s *Value, idx *Term, pt types.Type) *Value {
 // sliceRootType normalises named slice types to their underlying slice type so
 // that all []T share one backing heap.
 func sliceRootType(t types.Type) types.Type {
-	return t.Underlying().(*types.Slice)
+	// the backing store of every []E is an (unbounded) array object: [-1]E
+	return types.NewArray(t.Underlying().(*types.Slice).Elem(), -1)
+}
+
+func backingElem(root types.Type) types.Type { return root.(*types.Array).Elem() }
+
+func isBackingRoot(root types.Type) bool {
+	a, ok := root.(*types.Array)
+	return ok && a.Len() < 0
 }
 
 func (ex *Exec) sliceElem(st *State, s *Value, idx *Term) *Value {
@@ -984,7 +1001,7 @@ func (ex *Exec) makeSlice(st *State, t types.Type, ln, cp *Term) *Value {
 	ref := ex.newRef(st)
 	st2 := sliceRootType(t)
 	key := typeKey(st2)
-	for i, c := range ex.L.Backing(st2.(*types.Slice).Elem()) {
+	for i, c := range ex.L.Backing(backingElem(st2)) {
 		h := ex.heapMap(st, key, i, c.Sort)
 		ex.setHeapMap(st, key, i, ex.tb.Store(h, ref, ex.zeroOfSort(c.Sort)))
 		if ex.discover != nil {
@@ -1102,7 +1119,7 @@ func (ex *Exec) backingArray(st *State, s *Value, comp int) *Term {
 		return v.C[comp]
 	}
 	rt := sliceRootType(s.T)
-	c := ex.L.Backing(rt.(*types.Slice).Elem())[comp]
+	c := ex.L.Backing(backingElem(rt))[comp]
 	return ex.tb.Select(ex.heapMap(st, typeKey(rt), comp, c.Sort), s.C[0])
 }
 
@@ -1123,7 +1140,7 @@ func (ex *Exec) setBackingArray(st *State, s *Value, comp int, arr *Term) {
 		return
 	}
 	rt := sliceRootType(s.T)
-	c := ex.L.Backing(rt.(*types.Slice).Elem())[comp]
+	c := ex.L.Backing(backingElem(rt))[comp]
 	key := typeKey(rt)
 	if ex.discover != nil {
 		ex.discover.heap[fmt.Sprintf("%s|%d", key, comp)] = heapKeyInfo{rootKey: key, root: rt, comp: comp, sort: c.Sort}
@@ -1301,35 +1318,34 @@ func (ex *Exec) concat(st *State, x, y *Value, rt types.Type) *Value {
 	if ly.ival != nil && ly.ival.Sign() == 0 {
 		return &Value{T: rt, C: x.C}
 	}
-	// result array: start from x's array shifted to offset of x (keep x's off), then append y
-	var arr *Term
-	off := x.C[1]
+	// result: a fresh array at offset 0.  Literal parts are pinned pointwise,
+	// symbolic parts by a quantifier over the absolute index of the result
+	// (pattern: select R i), which instantiates well.
 	if ly.ival != nil && ly.ival.IsInt64() && ly.ival.Int64() <= 64 {
-		arr = x.C[0]
+		// literal suffix: x's own array with the suffix stored behind it (no quantifier)
+		a := x.C[0]
 		for k := int64(0); k < ly.ival.Int64(); k++ {
 			kk := ex.idxLit(k)
-			arr = tb.Store(arr, ex.add(ex.add(off, lx), kk), tb.Select(y.C[0], ex.add(y.C[1], kk)))
+			a = tb.Store(a, ex.add(ex.add(x.C[1], lx), kk), tb.Select(y.C[0], ex.add(y.C[1], kk)))
 		}
-	} else if lx.ival != nil && lx.ival.IsInt64() && lx.ival.Int64() <= 64 {
-		// prepend literal: use y's array, place x before y's offset
-		// new off = y.off - lx may be negative: indexes are only ever used relative, which is fine for SMT arrays
-		arr = y.C[0]
-		off = ex.sub(y.C[1], lx)
-		for k := int64(0); k < lx.ival.Int64(); k++ {
-			kk := ex.idxLit(k)
-			arr = tb.Store(arr, ex.add(off, kk), tb.Select(x.C[0], ex.add(x.C[1], kk)))
-		}
-		// offsets must stay non-negative for type facts: shift by using a fresh base is unnecessary;
-		// typeFacts only constrain havoc values, not computed ones.
-	} else {
-		arr = tb.Fresh("cat", x.C[0].Sort)
-		off = ex.idxLit(0)
-		i := tb.BVar("ki", lx.Sort)
-		ex.assume(st, tb.Forall([]*Term{i}, tb.Implies(tb.And(ex.geZero(i), ex.lt(i, lx)),
-			tb.Eq(tb.Select(arr, i), tb.Select(x.C[0], ex.add(x.C[1], i))))))
-		ex.assume(st, tb.Forall([]*Term{i}, tb.Implies(tb.And(ex.geZero(i), ex.lt(i, ly)),
-			tb.Eq(tb.Select(arr, ex.add(lx, i)), tb.Select(y.C[0], ex.add(y.C[1], i))))))
+		return &Value{T: rt, C: []*Term{a, x.C[1], ex.add(lx, ly)}}
 	}
+	arr := tb.Fresh("cat", x.C[0].Sort)
+	off := ex.idxLit(0)
+	i := tb.BVar("ki", lx.Sort)
+	part := func(src *Value, base *Term, n *Term) {
+		if n.ival != nil && n.ival.IsInt64() && n.ival.Int64() <= 64 {
+			for k := int64(0); k < n.ival.Int64(); k++ {
+				kk := ex.idxLit(k)
+				ex.assume(st, tb.Eq(tb.Select(arr, ex.add(base, kk)), tb.Select(src.C[0], ex.add(src.C[1], kk))))
+			}
+			return
+		}
+		ex.assume(st, tb.Forall([]*Term{i}, tb.Implies(tb.And(ex.le(base, i), ex.lt(i, ex.add(base, n))),
+			tb.Eq(tb.Select(arr, i), tb.Select(src.C[0], ex.add(src.C[1], ex.sub(i, base)))))))
+	}
+	part(x, ex.idxLit(0), lx)
+	part(y, lx, ly)
 	return &Value{T: rt, C: []*Term{arr, off, ex.add(lx, ly)}}
 }
 
@@ -1582,6 +1598,10 @@ func (ex *Exec) functionalResult(c *FuncContract, args []*Value, retT types.Type
 	l := ex.L.Of(retT)
 	v := &Value{T: retT, C: make([]*Term, len(l.Comps))}
 	for i, comp := range l.Comps {
+		if comp.Kind == kStrOff && comp.Lift == 0 {
+			v.C[i] = ex.zeroOfSort(comp.Sort) // offset 0 w.l.o.g. (the bytes are a value)
+			continue
+		}
 		name := fmt.Sprintf("fn$%s$%d$%d", c.Name, i, len(as))
 		ex.tb.DeclareUF(name, sorts, comp.Sort)
 		v.C[i] = ex.tb.App(name, comp.Sort, as...)
@@ -1645,4 +1665,28 @@ func exprMentions(e Expr, names map[string]bool) bool {
 		return exprMentions(e.Body, names)
 	}
 	return false
+}
+
+func (ex *Exec) forbidCheck(fr *Frame, st *State, name string, site ssa.Instruction) {
+	c := fr.contract
+	if c == nil {
+		c = ex.prog.contractFor(fr.fn)
+	}
+	if c == nil {
+		return
+	}
+	for _, r := range c.Forbid {
+		if !strings.HasPrefix(name, r.Prefix) {
+			continue
+		}
+		ok := false
+		for _, e := range r.Except {
+			if e == name {
+				ok = true
+			}
+		}
+		if !ok {
+			ex.oblige(st, "forbidden-call", ex.siteWhat(site), ex.tb.False, site, "call to "+name+" is not allowed here by the contract")
+		}
+	}
 }
